@@ -261,9 +261,13 @@ def paren_of(x):
     return {"k": "paren", "t": {"alts": [copy.deepcopy(x)]}}
 
 
+def unwrap_like(x):
+    return (is_t1(x) and x["k"] == "unwrap") or (is_type(x) and len(x["alts"]) == 1 and x["alts"][0]["k"] == "unwrap")
+
+
 def f_paren(S, a):
     x = get(S, a["path"])
-    if not (is_type(x) or is_entry(x) or is_t1(x)):
+    if not (is_type(x) or is_entry(x) or is_t1(x)) or unwrap_like(x):
         return None
     return put(S, a["path"], paren_of(x))
 
@@ -278,7 +282,7 @@ def f_extract(S, a):
     i = p[0]
     if len(p) < 2 or a["name"] in all_names(S) | PRELUDE or not (2 <= a["at"] <= len(S) + 1):
         return None
-    if refs_node(x) & set(S[i - 1]["params"]):
+    if refs_node(x) & set(S[i - 1]["params"]) or unwrap_like(x):
         return None
     if is_type(x):
         return insert_at(put(S, p, G.T(G.ref(a["name"]))), a["at"], G.trule(a["name"], x))
